@@ -729,7 +729,13 @@ func evalHist(ctx *hx.Ctx, h *hist) {
 	il, steps := runGuarded(ctx, h, cl)
 	idx := ctx.Corr(cl, il)
 	progN++
-	if h.unrel && strings.HasPrefix(cl, "1 ") && (ctx.Tier != "quick" || (h.B() <= 1024 && progN%4 == 0)) {
+	// (the interpreter is about ten times slower than the hand-written model and quadratic in the buffer size: every
+	// fourth history in the quick tier, every sixteenth in the thorough tier, buffers up to 1024 slots)
+	every := 4
+	if ctx.Tier != "quick" {
+		every = 16
+	}
+	if h.unrel && strings.HasPrefix(cl, "1 ") && h.B() <= 1024 && progN%every == 0 {
 		// the same history through reorder() as translated from the Go source (coq/gen/Prog.v run by the interpreter of
 		// GVL.Imp): case kind 2
 		ctx.Corr("2 "+cl[2:], il)
